@@ -710,7 +710,18 @@ func (c *compiler) compile(tok *token) []instruction {
 		for i := len(tok.Tokens[switchCases].Tokens) - 1; i >= 0; i-- {
 			cs := tok.Tokens[switchCases].Tokens[i]
 			const caseStmt, caseBlock = 0, 1
-			csStmt := c.optimize(c.compile(cs.Tokens[caseStmt]))
+			values := []*token{cs.Tokens[caseStmt]}
+			if cs.Tokens[caseStmt].Symbol == "," { // case a, b: the clause is taken when any of the values matches
+				values = cs.Tokens[caseStmt].Tokens
+			}
+			var tests [][]instruction
+			for _, value := range values {
+				test := c.optimize(c.compile(value))
+				if isValue {
+					test = append(test, instruction{Code: codeLocalGet, A: reg(v)}, instruction{Code: codeEq})
+				}
+				tests = append(tests, test)
+			}
 			c.Begin()
 			csBlock := c.optimize(c.compileAll(cs.Tokens[caseBlock].Tokens))
 			for n, ins := range csBlock {
@@ -721,10 +732,16 @@ func (c *compiler) compile(tok *token) []instruction {
 			}
 			c.End()
 			var chunk []instruction
-			chunk = append(chunk, csStmt...)
-			if isValue {
-				chunk = append(chunk, instruction{Code: codeLocalGet, A: reg(v)})
-				chunk = append(chunk, instruction{Code: codeEq})
+			for n, test := range tests {
+				chunk = append(chunk, test...)
+				if n == len(tests)-1 {
+					break
+				}
+				rest := 0 // instructions between this test's jump and the clause body
+				for _, t := range tests[n+1:] {
+					rest += len(t) + 1
+				}
+				chunk = append(chunk, instruction{Code: codeJumpTrue, A: reg(rest)})
 			}
 			chunk = append(chunk, instruction{Code: codeJumpFalse, A: reg(len(csBlock) + 1)})
 			chunk = append(chunk, csBlock...)
